@@ -92,6 +92,9 @@ func pickStyle(r *hx.Rng) int {
 func be32(b []byte) uint32 { return uint32(b[0])<<24 | uint32(b[1])<<16 | uint32(b[2])<<8 | uint32(b[3]) }
 
 func gen(r *hx.Rng, n int, tier string) []string {
+	if tier == "thorough" {
+		directN = 4096
+	}
 	var lines []string
 	id := func() string {
 		if r.Chance(20) {
@@ -205,6 +208,23 @@ func stat(what string, outs [][]byte, from int) string {
 			minLen = len(o)
 		}
 	}
+	if len(outs) >= 2560 && !strings.HasPrefix(what, "HPKE") { // an X25519 public key is not uniform in its top bit
+		exp := float64(len(outs)) / 256
+		for p := from; p < minLen; p++ {
+			var cnt [256]int
+			for _, o := range outs {
+				cnt[o[p]]++
+			}
+			chi := 0.0
+			for _, c := range cnt {
+				d := float64(c) - exp
+				chi += d * d / exp
+			}
+			if chi > 255+12*22.6 { // 255 degrees of freedom: mean 255, sd 22.6
+				return fmt.Sprintf("%s: byte position %d of the random field is not uniform over %d calls (chi-square %.0f, 255 d.o.f.)", what, p-from, len(outs), chi)
+			}
+		}
+	}
 	for p := from; p < minLen; p++ {
 		constant := true
 		for _, o := range outs[1:] {
@@ -243,7 +263,10 @@ func varying(outs [][]byte, from int) int {
 	return v
 }
 
-const directN = 16
+// directN: number of calls made with the operating system's randomness per
+// operation (quick 16; thorough 4096, which also enables the per-position
+// chi-square test).
+var directN = 16
 
 // directVarying: per operation, the number of varying byte positions seen in
 // the random field over directN calls with the operating system's randomness.
